@@ -97,6 +97,7 @@ type world struct {
 	calls       []backendCall
 	uploads     []*upload
 	health      []bool // scripted health answers; last one repeats
+	healthFail  int    // how a failing check fails: 0 = 500, -1 = connection refused, otherwise that status
 	healthCalls []time.Duration
 	hooks       *venv.H
 	mainDone    bool
@@ -501,6 +502,12 @@ func (w *world) healthGet(url string) (*http.Response, error) {
 		}
 	}
 	if !ok {
+		switch {
+		case w.healthFail < 0:
+			return nil, fmt.Errorf("dial tcp backend.test:80: connect: connection refused")
+		case w.healthFail > 0:
+			return resp(w.healthFail, nil, []byte("starting"), nil), nil
+		}
 		return resp(500, nil, []byte("unhealthy"), nil), nil
 	}
 	return resp(200, nil, []byte("ok"), nil), nil
